@@ -87,7 +87,14 @@ def m_asarray(I, e, args, kws):
     if x.known and x.const is None:
         return x
     out.tags = dict(x.tags)
-    out.tags["kind"] = "ndarray" if not x.tag("isnum") else x.tag("kind", "ndarray")
+    out.tags["kind"] = "ndarray"
+    if x.tag("isnum") and (x.shape is None or x.shape.rank == 0):
+        # np.asarray(3.0) is a 0-d ndarray: no longer a numbers.Number for isinstance, ndim 0
+        out.tags.pop("isnum", None)
+        out.tags.pop("np_scalar", None)
+        out.tags["ndim"] = 0
+        out.tags["was_number"] = True
+        out.shape = Shape(())
     out.tags["notstr"] = True
     if "dtype" in kws and x.fresh and x.fresh != "FRESH":
         # asarray(x, dtype=float) copies only when the dtype differs: may still alias
@@ -629,7 +636,14 @@ def _elementwise(I, e, xs, unit=None, sign=None, frame=None, lin_from=None):
 @model("numpy.abs", "numpy.fabs")
 def m_abs(I, e, args, kws):
     x = args[0]
-    return _elementwise(I, e, [x], unit=x.unit, sign="NONNEG", frame=None)
+    out = _elementwise(I, e, [x], unit=x.unit, sign="NONNEG", frame=None)
+    if x.sign not in ("NONNEG", "POS") and x.tag("extremum") is not None:
+        I.emit("abs_of_extremum", e, of=x, which=x.tag("extremum")[0])      # |min(…)| is −min(…) only while the minimum is non-positive
+    if x.sign not in ("NONNEG", "POS") and x.tag("integrated"):
+        # |∫ f| forgets the sign of the integral: the functional is no longer linear in its integrand
+        lossy(I, e, out, x, "abs")
+        I.emit("nonlinear_after_integration", e, of=x, how="abs")
+    return out
 
 
 @model("numpy.sqrt")
@@ -1059,6 +1073,8 @@ def m_cumsum(I, e, args, kws):
 def m_diff(I, e, args, kws):
     x = args[0]
     out = mk(args, fresh="FRESH", unit=x.unit, tags={"kind": "ndarray"})
+    if x.tag("point"):
+        out.tags["spacings_of"] = x          # the sample spacings of a coordinate array
     if x.tag("point") and not x.tag("sorted") and (x.shape is None or x.shape.rank == 1):
         # successive differences of coordinates AS STORED: for a descending / shuffled domain they are negative / arbitrary steps
         out.data = out.data | {f"pick@{I.fr.fn.module.relpath}:{e.lineno}"}
@@ -1159,6 +1175,7 @@ def m_trapezoid(I, e, args, kws):
                                           f"sample points have extent {'⊗'.join(meas.shape.axes[-1])}")
         except IndexError:
             pass
+    out.tags["integrated"] = True
     return out
 
 
